@@ -35,7 +35,7 @@ def draw_attach(rng, s, mm):
         if rng.random() < 0.3:
             p1, p2 = p2, p1
         subs.append([name, p1, p2])
-    return {"op": "S.attach", "on": s, "subs": subs}
+    return {"op": "S.attach", "on": s, "subs": subs, "share": rng.random() < 0.25}
 
 
 def draw_attach_bad(rng, s, mm):
@@ -169,6 +169,8 @@ class SubregionsProfile(HeapProfile):
             if t == "plane":
                 o["off"] = rng.choice([0, 1, -1])
                 o["default"] = rng.random() < 0.15
+                if rng.random() < 0.25:
+                    o["zero"] = rng.choice(["float", "int", "neg"])
             else:
                 o["w"] = rng.randrange(6)
                 o["swap"] = rng.random() < 0.2
